@@ -16,7 +16,9 @@ func init() {
 	generators["c06"] = genC06
 	generators["c07"] = genC07
 	generators["c07accept"] = genC07accept
+	generators["c07stall"] = genC07stall
 	generators["c08"] = genC08
+	generators["c08edges"] = genC08edges
 	generators["c09"] = genC09
 	generators["c10"] = genC10
 	generators["c11"] = genC11
@@ -55,9 +57,9 @@ func (s *scen) emit(g *Gen) {
 // C06: pipelines in which earlier handlers block until later ones have started
 func genC06(g *Gen) {
 	r := g.rng
-	sizes := []int{1, 2, 3, 8, 32}
+	sizes := []int{1, 2, 3, 8, 32, 200}
 	if g.tier == "thorough" {
-		sizes = append(sizes, 100, 256)
+		sizes = append(sizes, 100, 129, 256)
 	}
 	for _, n := range sizes {
 		// all N block on one barrier: every one must have started, none ended, before the release
@@ -155,6 +157,31 @@ func genC07(g *Gen) {
 	}
 }
 
+// C07 (continued): a client that stops reading its responses, with bystanders,
+// on a server whose handlers are reached through routes and through the default route
+func genC07stall(g *Gen) {
+	for _, cfg := range []string{"fixed", "fixed:dflt=1"} {
+		for _, nreq := range []int{1, 3} {
+			s := newScen(cfg)
+			s.op("run 1 1")
+			s.op("connect") // 0: bystander
+			s.op("connect") // 1: victim, not reading
+			s.op("stall 1 1")
+			var items []string
+			for i := 0; i < nreq; i++ {
+				items = append(items, s.req("normal", "W"))
+			}
+			s.send(1, items...)
+			s.send(0, s.req("normal", "w"), s.req("normal", "w"))
+			s.op("connect") // 2
+			s.send(2, s.req("normal", "w"))
+			s.op("close 0")
+			s.op("stop")
+			s.emit(g)
+		}
+	}
+}
+
 // C07 (continued): descriptor exhaustion at accept time, with bystanders
 func genC07accept(g *Gen) {
 	for _, busy := range []bool{false, true} {
@@ -233,6 +260,39 @@ func genC08(g *Gen) {
 	}
 }
 
+// C08 (continued): the request and the client's EOF arrive together; an upgraded
+// (TLS) connection is reset by the client
+func genC08edges(g *Gen) {
+	for _, nconn := range []int{1, 6} {
+		s := newScen("fixed")
+		s.op("run 1 1")
+		for c := 0; c < nconn; c++ {
+			s.op("connect")
+		}
+		for c := 0; c < nconn; c++ {
+			s.op(fmt.Sprintf("sendclose %d %s", c, listStr([]string{s.req("normal", "b5", "w")})))
+		}
+		s.op("release 5")
+		s.op("stop")
+		s.emit(g)
+	}
+	for _, how := range []string{"reset", "close"} {
+		s := newScen("fixed")
+		s.op("run 1 1")
+		s.op("connect")
+		s.op("connect")
+		for c := 0; c < 2; c++ {
+			s.send(c, s.req("starttls", "w", "hs"))
+			s.send(c, "hello")
+			s.send(c, s.req("normal", "w"))
+		}
+		s.op(how + " 0")
+		s.op(how + " 1")
+		s.op("stop")
+		s.emit(g)
+	}
+}
+
 // C09: connect / request / close / reconnect histories
 func genC09(g *Gen) {
 	r := g.rng
@@ -270,7 +330,7 @@ func genC09(g *Gen) {
 
 // C10: <requests> Unbind <requests> in one TCP segment
 func genC10(g *Gen) {
-	for _, unbindRoute := range []string{"1", "0"} {
+	for _, unbindRoute := range []string{"1", "0", "0:dflt=1"} {
 		for k := 0; k <= 3; k++ {
 			for m := 0; m <= 3; m++ {
 				for _, held := range []bool{false, true} {
